@@ -147,7 +147,7 @@ def execute(ctx, case: dict) -> None:
 
     platform = case["platform"]
     if case["cls"] == "Acl":
-        obj = Acl(case["text"], platform=platform, group_by=case.get("group_by", ""))
+        obj = Acl(case["text"], platform=platform, group_by=case.get("group_by", ""), version=case.get("version", ""))
         if case.get("group_by") and any(type(i).__name__ == "AceGroup" for i in obj.items):
             ctx.count("grouped_shapes")
         # mixed nesting: plain items between / after the groups (list methods, no regrouping)
@@ -207,8 +207,12 @@ def gen_cases(ctx):
                     extra.append([rng.randint(0, 6), rng.choice([f"permit tcp any any eq {5000 + n}", f"remark extra {n}"])])
             count += len(extra)
             calls = [_start_step(rng, count) for _ in range(rng.randint(1, 3))]
+            seqs = [it["sem"]["seq"] for it in acl["items"]]
+            if acl["numbered"] and not extra and count > 2 and rng.random() < 0.5 and (seqs[-1] - seqs[0]) % (count - 1) == 0:
+                # the new numbering coincides with the old one at both ends (not necessarily in between)
+                calls.insert(0, (seqs[0], (seqs[-1] - seqs[0]) // (count - 1)))
             yield {"cls": "Acl", "platform": platform, "text": acl["text"], "group_by": heading or "", "calls": calls,
-                   "n": count, "extra": extra}
+                   "n": count, "extra": extra, "version": rng.choice(["", "", "15", "15.2(4)M3", "16.09.06"])}
         elif roll < 0.82:
             acl = grammar.gen_acl(rng, platform, ace_kw=dict(allow_multi=False, ws=False, max_k=2))
             body = "\n".join(acl["text"].split("\n")[1:])
